@@ -39,9 +39,17 @@ func drawField(t *rapid.T, name string, actual []byte, s *gen.Stream) []byte {
 		b[bit/8] ^= 1 << uint(bit%8)
 		return b
 	case "short":
-		return append([]byte{}, actual[:n-1]...)
+		// one byte short, or shorter still (a prefix of the actual value: a comparison over the common part would match)
+		cut := rapid.SampledFrom([]int{1, 1, 2, n / 2, n - 1}).Draw(t, name+"-cut")
+		return append([]byte{}, actual[:n-cut]...)
 	case "long":
-		return append(append([]byte{}, actual...), 0)
+		// one byte long, or longer by an amount a narrow length comparison would lose (256, 512, 65536), or doubled
+		extra := rapid.SampledFrom([]int{1, 1, 2, n, 255, 256, 257, 512, 65536}).Draw(t, name+"-extra")
+		tail := make([]byte, extra)
+		if rapid.Bool().Draw(t, name+"-tailrandom") {
+			tail = s.Bytes(extra)
+		}
+		return append(append([]byte{}, actual...), tail...)
 	default:
 		return s.Bytes(n)
 	}
@@ -96,7 +104,7 @@ func drawMinSvn(t *rapid.T, name string, actual uint16) uint32 {
 }
 
 func drawMinTee(t *rapid.T, actual []byte, s *gen.Stream) []byte {
-	kind := rapid.SampledFrom([]string{"nil", "nil", "equal", "below", "one-above", "len0", "len1", "len15", "len17", "zeros", "random"}).Draw(t, "mintee")
+	kind := rapid.SampledFrom([]string{"nil", "nil", "equal", "below", "one-above", "len0", "len1", "len15", "len17", "len-far", "len-prefix", "zeros", "random"}).Draw(t, "mintee")
 	gen.Class("mintee:" + kind)
 	switch kind {
 	case "nil":
@@ -125,6 +133,12 @@ func drawMinTee(t *rapid.T, actual []byte, s *gen.Stream) []byte {
 		return make([]byte, 15)
 	case "len17":
 		return make([]byte, 17)
+	case "len-far":
+		// the quote's own value followed by 16, 255, 256, 512 or 65536 further bytes: not a 16-byte minimum
+		extra := rapid.SampledFrom([]int{16, 255, 256, 512, 65536}).Draw(t, "mintee-extra")
+		return append(append([]byte{}, actual...), make([]byte, extra)...)
+	case "len-prefix":
+		return append([]byte{}, actual[:rapid.IntRange(1, 15).Draw(t, "mintee-prefix")]...)
 	case "zeros":
 		return make([]byte, 16)
 	default:
